@@ -274,7 +274,11 @@ class XExec final : public yaclib::IExecutor {
   int id = 0;
   char kind = 'q';
   std::deque<XJob*> q;
-  std::vector<int> cur;  // coroutine ids of the Calls in progress, innermost last
+  std::map<std::uint64_t, std::vector<int>> cur;  // per fiber: coroutine ids of the Calls in progress, innermost last
+  bool Calling(int c) {
+    auto it = cur.find(yaclib::fault::Scheduler::GetId());
+    return it != cur.end() && !it->second.empty() && it->second.back() == c;
+  }
   yaclib::FairThreadPool* tp = nullptr;
 
   Type Tag() const noexcept final {
@@ -484,7 +488,7 @@ struct Ctx {
       if (&e != &x) {
         vrt::Fail(who + " continues with CurrentExecutor " + std::to_string(ExecId(e)) + ", not the executor named");
       }
-      if (x.cur.empty() || x.cur.back() != c) {
+      if (!x.Calling(c)) {
         vrt::Fail(who + " did not resume inside a Call of the executor named");
       }
     } else if (sticky_form) {
@@ -498,7 +502,7 @@ struct Ctx {
           if (me != sh.fiber_before) {
             vrt::Fail(who + " moved to another fiber without going through its own executor");
           }
-        } else if (x.cur.empty() || x.cur.back() != c) {
+        } else if (!x.Calling(c)) {
           vrt::Fail(who + " did not resume inside a Call of its own executor");
         }
       }
@@ -600,9 +604,10 @@ void XJob::Call() noexcept {
   auto* in = inner;
   int cc = c;
   delete this;
-  ex->cur.push_back(cc);
+  auto me = yaclib::fault::Scheduler::GetId();
+  ex->cur[me].push_back(cc);
   in->Call();
-  ex->cur.pop_back();
+  ex->cur[me].pop_back();
 }
 
 void XJob::Drop() noexcept {
